@@ -295,61 +295,69 @@ func (e *engine) sectionFull(pool *kslib.Pool, seed uint64) {
 		if slow && !hlib.Thorough() {
 			continue
 		}
-		pt := pk.Prefix
-		api := fmt.Sprintf("full-primitive/%s/%s", pk.Type, variantName(pt))
-		ks := keysetOf(pk.KD, pt)
-		fullOf := func(k *tinkpb.Keyset, public bool) (any, error) {
-			return recoverAny(func() (any, error) {
-				var h *keyset.Handle
-				var err error
-				if public {
-					h, err = publicOf(k)
-				} else {
-					h, err = readHandle(k)
-				}
-				if err != nil {
-					return nil, err
-				}
-				en, err := h.Primary()
-				if err != nil {
-					return nil, err
-				}
-				return primitiveregistry.Primitive(en.Key())
-			})
-		}
-		if _, err := fullOf(ks, false); err != nil {
-			e.skip(api+"["+pk.Name+"]", err.Error())
-			continue
-		}
-		var q any
-		var err error
-		switch class {
-		case "signer", "hybdec":
-			q, err = fullOf(ks, true)
-		case "verifier", "hybenc":
-			q, err = fullOf(keysetOf(pool.Keys[pk.Priv].KD, pt), false)
-		default:
-			q, err = fullOf(ks, false)
-		}
-		if err != nil {
-			e.skip(api+"["+pk.Name+"]", "partner: "+err.Error())
-			continue
-		}
-		if class == "verifier" && slow {
-			sig, err := q.(tink.Signer).Sign(cl(probeMsg))
-			if err != nil {
+		for _, pt := range keyVariants(pk) {
+			pt := pt
+			api := fmt.Sprintf("full-primitive/%s/%s", pk.Type, variantName(pt))
+			ks := keysetOf(pk.KD, pt)
+			fullOf := func(k *tinkpb.Keyset, public bool) (any, error) {
+				return recoverAny(func() (any, error) {
+					var h *keyset.Handle
+					var err error
+					if public {
+						h, err = publicOf(k)
+					} else {
+						h, err = readHandle(k)
+					}
+					if err != nil {
+						return nil, err
+					}
+					en, err := h.Primary()
+					if err != nil {
+						return nil, err
+					}
+					return primitiveregistry.Primitive(en.Key())
+				})
+			}
+			if _, err := fullOf(ks, false); err != nil {
+				e.skip(api+"["+pk.Name+"]", err.Error())
 				continue
 			}
-			q = &sigFixture{msg: cl(probeMsg), sig: sig}
+			var q any
+			var err error
+			switch class {
+			case "signer", "hybdec":
+				q, err = fullOf(ks, true)
+			case "verifier", "hybenc":
+				q, err = fullOf(keysetOf(pool.Keys[pk.Priv].KD, pt), false)
+			default:
+				q, err = fullOf(ks, false)
+			}
+			if err != nil {
+				e.skip(api+"["+pk.Name+"]", "partner: "+err.Error())
+				continue
+			}
+			if class == "verifier" && slow {
+				sig, err := q.(tink.Signer).Sign(cl(probeMsg))
+				if err != nil {
+					continue
+				}
+				q = &sigFixture{msg: cl(probeMsg), sig: sig}
+			}
+			_ = i
+			src := primSrc{api: api, extra: "key=" + pk.Name, class: class, q: q, lays: layouts()[:2], msgs: 1,
+				rndCT: strings.Contains(pk.Name, "MLKEM") || strings.Contains(pk.Name, "XWING"),
+				mk: func() (any, func() string, error) {
+					p, err := fullOf(ks, false)
+					return p, nil, err
+				}}
+			if hlib.Thorough() {
+				src.lays, src.msgs = nil, 2
+				if slow {
+					src.lays, src.msgs = layouts()[:2], 1
+				}
+			}
+			e.o.Count("full-prim:" + pk.Type)
+			e.primOps(src, hlib.NewRng(seed, "full/"+api+"/"+pk.Name))
 		}
-		_ = i
-		src := primSrc{api: api, extra: "key=" + pk.Name, class: class, q: q, lays: layouts()[:2], msgs: 1,
-			rndCT: strings.Contains(pk.Name, "MLKEM") || strings.Contains(pk.Name, "XWING"),
-			mk: func() (any, func() string, error) {
-				p, err := fullOf(ks, false)
-				return p, nil, err
-			}}
-		e.o.Count("full-prim:" + pk.Type)
-		e.primOps(src, hlib.NewRng(seed, "full/"+api+"/"+pk.Name))
 	}
 }
